@@ -84,7 +84,7 @@ func Start(h any) {
 // Exit is deferred at the top of every spawned goroutine. Without an engine
 // it does not recover, so a panic propagates exactly as in the shipped code.
 func Exit(h any) {
-	if e := ExitHook; e != nil {
+	if e := ExitHook; e != nil && h != nil {
 		e(h, recover())
 	}
 }
